@@ -474,7 +474,24 @@ func TestVerifC17Real(t *testing.T) {
 		seed := rng.U64()>>16 | 1
 		o := Options{Seed: seed, Version: c17Version(shard), NNodes: 3, NIdent: rng.Range(9, 24), NAccounts: 2, Epoch: EpochReal,
 			ValidationInterval: 35 * time.Minute, FirstCeremonyIn: 30 * time.Minute, GodIsIdentity: rng.Intn(3) != 0, DelegationSwitchRange: 4}
-		w := NewWorld(o)
+		// node owners must be able to stay validated for several epochs: a genesis Verified
+		// identity has no score history and is killed by the first ceremony that has flips
+		// (fewer than 13 qualified flips), so worlds whose node identities are all Human are
+		// used (the genesis states are drawn from the world seed)
+		var w *World
+		for try := 0; ; try++ {
+			w = NewWorld(o)
+			ok := true
+			for _, n := range w.Nodes {
+				ok = ok && state.IdentityState(w.Alloc[n.Addr].State) == state.Human
+			}
+			if ok || try > 200 {
+				break
+			}
+			w.Cleanup()
+			o.Seed += 2
+		}
+		seed = o.Seed
 		c := &c17World{w: w, rep: rep, variant: map[*Replica]string{}, rsPhase: map[*Replica]string{}, K: K, orders: orders, shard: shard, worldNo: wn}
 		c.variant[w.Replicas[0]] = "sees-all"
 		mk := func(owner *Actor, name, variant string) *Replica {
